@@ -23,11 +23,12 @@ CASE_TIMEOUT_S = 90
 LEVEL_TEXT = ("Lean 4 theorems over a transliteration of the task shuffles: staged_route / staged_position (for every "
               "starting partition, after all stages a row sits in staged partition target % npartitions_input, given "
               "nsplits**stages >= npartitions_input), task_shuffle_sound (frame level: every row found in output partition p of "
-              "the whole staged shuffle - all stages, padding, optional final resize - has target p), staged_colocated, stageIndex_is_digit / stageIndex_hashing "
+              "the whole staged shuffle - all stages, padding, optional final resize - has target p), task_shuffle_complete (unchanged partition count: every input row is found in the output "
+              "partition named by its target - no row lost), task_shuffle_colocated, staged_colocated, stageIndex_is_digit / stageIndex_hashing "
               "(shuffle_group's digit arithmetic), simple_shuffle_exact (SimpleShuffle output p = the rows with target % n = p, "
               "in input order, with multiplicity) and simple_shuffle_colocated, set_partitions_pre_spec (value inside "
               "[d0, d_last) goes to the partition whose half-open interval contains it, out-of-range values to the nearest "
-              "end) — all inputs, no size bound. Completeness / multiplicity of the STAGED shuffle at frame level (no row lost or duplicated), sort_values / "
+              "end) — all inputs, no size bound. Multiplicity of the STAGED shuffle at frame level (no row duplicated; completeness when the partition count changes), sort_values / "
               "set_index global order, drop_duplicates / unique / nunique and the disk shuffle are VALIDATED: the Lean "
               "frame-level model (taskShuffle: stages, padding, final shuffle_group_2) is diffed row-for-row and in order "
               "against real task shuffles with max_branch 2-3, npartitions in/out 1-14, int/str/float/categorical keys with "
